@@ -32,6 +32,8 @@ pub fn garbage_collect_entities(world: &mut World)
 {
     while let Some(entity) = world.resource::<AutoDespawner>().try_recv()
     {
+        #[cfg(feature = "verif")]
+        crate::verif::emit(crate::verif::VerifEvent::Gc{ entity, existed: world.get_entity(entity).is_ok() });
         world.get_entity_mut(entity).ok().map(|e| e.despawn_recursive());
     }
 }
